@@ -123,6 +123,22 @@ fn is_chunk_prefix(released: &[u8], chunks: &[Vec<u8>]) -> bool {
 
 /// compare with the expectation named in the spec; Some(detail) = the misbehaviour reproduced
 pub fn judge(spec: &Value, out: &Outcome) -> Option<String> {
+    // tagged items: the first byte names the variant (0 ConnectTcp, 1 RelayTcp, 2 RelayUdp)
+    let tagged = spec["tagged"].as_bool().unwrap_or(false);
+    let kinds: Vec<u8> = if tagged { out.items.iter().map(|i| i[0]).collect() } else { vec![] };
+    let items: Vec<Vec<u8>> = if tagged { out.items.iter().map(|i| i[1..].to_vec()).collect() } else { out.items.clone() };
+    let out = &Outcome { items, error: out.error.clone(), ended: out.ended };
+    if let (Some(want), Some(got)) = (spec["first_kind"].as_u64(), kinds.first()) {
+        if out.error.is_none() && want != *got as u64 {
+            let names = ["ConnectTcp", "RelayTcp", "RelayUdp"];
+            return Some(format!("the first item the adapter yields for a valid request is {} instead of {}", names[*got as usize % 3], names[want as usize % 3]));
+        }
+    }
+    if let Some(n) = spec["item_count"].as_u64() {
+        if out.error.is_none() && out.items.len() as u64 != n {
+            return Some(format!("{} items for {} datagrams: boundaries are not preserved", out.items.len(), n));
+        }
+    }
     let released: Vec<u8> = out.items.concat();
     match spec["expect"].as_str() {
         Some("not_prefix") => {
@@ -131,6 +147,13 @@ pub fn judge(spec: &Value, out: &Outcome) -> Option<String> {
                 None
             } else {
                 Some(format!("the adapter released {} bytes in {} items that are not a whole-chunk prefix of any genuine stream", released.len(), out.items.len()))
+            }
+        }
+        Some("released_any") => {
+            if released.is_empty() && out.items.is_empty() {
+                None
+            } else {
+                Some(format!("the server decoder released {} bytes in {} items to the relay for a peer that did not present the configured credential", released.len(), out.items.len()))
             }
         }
         Some("all_delivered") => {
@@ -168,6 +191,7 @@ pub fn run(spec: &Value) -> Result<Option<String>, String> {
             }
         }
         "vmess_body" => vmess_body(spec, cfg, opens)?,
+        "vmess_server" => vmess_server(spec, cfg, opens)?,
         _ => return Err(format!("framed: unknown decoder {decoder}")),
     };
     verif::script_opens(None);
@@ -179,7 +203,41 @@ pub fn run(spec: &Value) -> Result<Option<String>, String> {
 fn ss_tcp<const N: usize>(spec: &Value, cfg: &Value, opens: Vec<Option<Vec<u8>>>) -> Result<Outcome, String> {
     let kind = kind_of(cfg["kind"].as_str().unwrap_or(""))?;
     let mode = if cfg["mode"].as_str() == Some("Client") { Mode::Client } else { Mode::Server };
-    let context = sstcp::Context::<N>::new([7u8; N], vec![], kind, None);
+    let users = cfg["users"].as_bool().unwrap_or(false);
+    let um = if users {
+        use octo_squirrel::manager::shadowsocks::ServerUser;
+        use octo_squirrel::manager::shadowsocks::ServerUserManager;
+        let mut m = ServerUserManager::<N>::new();
+        m.add_user(ServerUser { name: "A".to_owned(), key: [9u8; N], identity_hash: [3u8; 16] });
+        m.add_user(ServerUser { name: "B".to_owned(), key: [8u8; N], identity_hash: [4u8; 16] });
+        Some(std::sync::Arc::new(m))
+    } else {
+        None
+    };
+    let mut spec_owned = spec.clone();
+    if users {
+        // the identity header names the user the model's lookup found (a genuine header for that user), or nobody
+        let mut src = bytes_of(&spec["src"]);
+        let hash = match cfg["lookup"].as_str() {
+            Some("A") => Some([3u8; 16]),
+            Some("B") => Some([4u8; 16]),
+            _ => None,
+        };
+        if let (Some(mut block), true) = (hash, src.len() >= N + 16) {
+            let mut material = [7u8; N].to_vec();
+            material.extend_from_slice(&src[..N]);
+            let sub_key = blake3::derive_key("shadowsocks 2022 identity subkey", &material);
+            if N == 16 {
+                octo_squirrel::crypto::Aes128EcbNoPadding::encrypt(&sub_key, &mut block, 16);
+            } else {
+                octo_squirrel::crypto::Aes256EcbNoPadding::encrypt(&sub_key, &mut block, 16);
+            }
+            src[N..N + 16].copy_from_slice(&block);
+            spec_owned["src"] = serde_json::json!(src);
+        }
+    }
+    let spec = &spec_owned;
+    let context = sstcp::Context::<N>::new([7u8; N], vec![], kind, um);
     let mut identity = sstcp::Identity::<N>::default();
     let own = bytes_of(&cfg["own_salt"]);
     if own.len() == N {
@@ -225,4 +283,51 @@ fn vmess_body(spec: &Value, cfg: &Value, opens: Vec<Option<Vec<u8>>>) -> Result<
         r.map(|o| o.map(|b| b.to_vec())).map_err(|e| anyhow::anyhow!(e))
     });
     Ok(drive(dec, spec))
+}
+
+fn vmess_server(spec: &Value, _cfg: &Value, opens: Vec<Option<Vec<u8>>>) -> Result<Outcome, String> {
+    use octo_squirrel::protocol::vmess::aead::encrypt;
+    use octo_squirrel::protocol::vmess::id;
+    use octo_squirrel::util::fnv;
+    use octo_squirrel_server::server::verif::InboundIn;
+    use octo_squirrel_server::server::verif::new_vmess_codec;
+    use serde_json::json;
+    use tokio_util::bytes::Bytes;
+    const UUID: &str = "b831381d-6324-4d53-ad4f-8cda48b30811";
+    let config = crate::trojan::server_config("vmess", "pw", "aes-128-gcm", json!([{"name": "u", "password": UUID}]));
+    let mut codec = new_vmess_codec(&config).map_err(|e| e.to_string())?;
+    let key = id::from_password(UUID).map_err(|e| e.to_string())?;
+    // the model's header plaintext, with a real checksum, sealed for real (auth id for the current time, fresh connection nonce)
+    let mut header = bytes_of(&spec["header"]);
+    if header.len() < 42 {
+        return Err("header too short".to_owned());
+    }
+    let n = header.len();
+    let sum = fnv::fnv1a32(&header[..n - 4]);
+    header[n - 4..].copy_from_slice(&sum.to_be_bytes());
+    let sealed = encrypt::seal_header(&key, Bytes::from(header.clone())).map_err(|e| e.to_string())?;
+    let src = bytes_of(&spec["src"]);
+    let consumed = 16 + 18 + 8 + n + 16;
+    if src.len() < consumed || sealed.len() != consumed {
+        return Err("model stream shorter than its header".to_owned());
+    }
+    let mut wire = sealed;
+    wire.extend_from_slice(&src[consumed..]);
+    let mut spec2 = spec.clone();
+    spec2["src"] = json!(wire);
+    // the two header opens used the real cipher; the data section takes the model outcomes
+    verif::script_opens(Some(opens.into_iter().skip(2).collect()));
+    let shake: Vec<u16> = spec["shake"].as_array().map(|a| a.iter().map(|x| x.as_u64().unwrap_or(0) as u16).collect()).unwrap_or_default();
+    verif::script_shake(Some(shake));
+    let dec = FnDecoder(move |src: &mut BytesMut| {
+        use tokio_util::codec::Decoder;
+        codec.decode(src).map(|o| {
+            o.map(|item| match item {
+                InboundIn::ConnectTcp(b, _) => [vec![0u8], b.to_vec()].concat(),
+                InboundIn::RelayTcp(b) => [vec![1u8], b.to_vec()].concat(),
+                InboundIn::RelayUdp(b, _) => [vec![2u8], b.to_vec()].concat(),
+            })
+        })
+    });
+    Ok(drive(dec, &spec2))
 }
